@@ -24,7 +24,7 @@ STAGE_PROPS = {
  'socks':   'C01 C02 C08 C09 C12 C14',
  'docker':  'C01 C02 C08 C10 C14',
  'elastic': 'C01 C02 C08 C10 C14',
- 'iface':   'C17 C05',
+ 'iface':   'C17 C05 C02 C11',
  'optplumb': 'C05 C18',
 }
 RULES = [  # (package regex, function regex, stage)
